@@ -283,7 +283,7 @@ def shards(tier, seed):
             continue
         pool = [c for c in POOLS[f] if c not in CONCRETE_ONLY][:6 if deep else 4]
         out.append(dict(name=f"sym-first-{f.replace(':', '_')}", fn="h_history", kwargs=dict(pool=pool, n_calls=n, first=f),
-                        budget=900 if deep else 100, per_path=30))
+                        budget=900 if deep else 150, per_path=30))
     out.append(dict(name="sym-nofail", fn="h_history", kwargs=dict(pool=[c for c in NOFAIL_POOL if c not in CONCRETE_ONLY][:12 if deep else 6], n_calls=n - 1), budget=900 if deep else 100,
                     per_path=30))
     # concrete sigma, real dict, direct engine: every call of the history is a choice
